@@ -74,6 +74,8 @@ type Property struct {
 	JudgeModule string
 	JudgeCfg    string
 	JudgeFiles  func(env *Env) map[string][]byte
+	// JudgeFor optionally selects a different judge spec per trace (returns module, cfg); "" = default.
+	JudgeFor func(t *Trace) (string, string)
 	NonTrivial  func(t *Trace) bool // counts distinct_nontrivial; nil => every realised trace with >1 events
 	Rule        string
 	Assumptions []string
